@@ -73,6 +73,19 @@ def run(ctx: Ctx):
         okr = bool(repl) and "len(" in norm(repl[0].value) and not isinstance(repl[0].value, ast.Constant)
         if is_none:
             ctx.check(okr, "R20.b", f.key(f"bound-derived::{p}"), f"{p} = {norm(repl[0].value) if repl else None}", f"rhs_matrix: when `{p}` is None it is not replaced by a bound derived from the number of intermediates", f.where())
+            if okr and mname is not None:
+                # one pass can resolve as little as one link of a chain through the table, so the bound must count
+                # *every* entry of the substitution table (intermediates and state derivatives), not a part of it
+                btxt = norm(repl[0].value)
+                lens = [norm(c.args[0]) for c in ast.walk(repl[0].value) if isinstance(c, ast.Call) and isinstance(c.func, ast.Name) and c.func.id == "len" and c.args]
+                whole = mname in lens or (any(x.endswith(".intermediates") for x in lens) and any(x.endswith(".state_derivatives") for x in lens))
+                part = [x for x in lens if x.endswith((".intermediates", ".state_derivatives", ".states"))]
+                if whole:
+                    ctx.ok("R20.b", f.key(f"bound-counts-the-table::{p}"), f"{p} = {btxt}", f.where())
+                elif part:
+                    ctx.fail("R20.b", f.key(f"bound-counts-the-table::{p}"), f"rhs_matrix: the default bound `{btxt}` counts only {part}, not every entry of the substitution table `{mname}` (intermediates *and* state derivatives): a chain through more entries than that is refused although it is acyclic", f.where())
+                else:
+                    ctx.undecided("R20.b", f.key(f"bound-counts-the-table::{p}"), f"rhs_matrix: whether the default bound `{btxt}` covers the whole substitution table is not decided", f.where())
     if not bound_params:
         if isinstance(w, ast.For):
             ctx.fail("R20.b", f.key("unbounded"), f"rhs_matrix iterates `{norm(w.iter)}`: the number of passes is not derived from the caller's bound or the size of the model", f.where(w))
